@@ -688,6 +688,10 @@ func cmdReplay(args []string) int {
 	if inv.Race {
 		conf = strings.Contains(out, "WARNING: DATA RACE")
 	}
+	if strings.HasPrefix(inv.File, "seeded/") {
+		// a demonstration of the seeded corpus: a plain test of the real code; it fails when the behaviour is there
+		conf = strings.Contains(out, "--- FAIL") && !strings.Contains(out, "[build failed]")
+	}
 	fmt.Printf("re-run of %s on the current tree: confirmed=%v\n%s\n", inv.Test, conf, replaySummary(out))
 	if conf {
 		return 1
